@@ -23,7 +23,7 @@ def specs_for(ctx):
         dict(D=2, target="sphere", box="sym", noise="declared", sigma=0.4, options=dict(max_fun_evals=45, noise_final_samples=10), seed=ctx.seed * 10 + 5),
         dict(D=1, target="sphere", box="sym", noise="det", options=dict(max_fun_evals=30, search_n_try=1), seed=ctx.seed * 10 + 6),
     ]
-    return specs + extra
+    return specs + extra + S.panel_nondefault(ctx.seed)
 
 
 def tie(ctx, broken):
